@@ -5,6 +5,7 @@
 //!   rv list
 
 mod der;
+mod findings;
 mod gen;
 mod keys;
 mod mk;
